@@ -34,7 +34,8 @@ class World:
                        "rendezvous_send", "library_rates_distributed", "library_tensor_distributed",
                        "negative_length", "single_rank", "return_index_list", "return_index_array",
                        "library_tensor_created_and_converted_at_different_levels", "same_list_object_distributed_again",
-                       "reduced_array_not_c_contiguous", "other_helper_called_before_the_block_is_iterated"]
+                       "reduced_array_not_c_contiguous", "other_helper_called_before_the_block_is_iterated",
+                       "nested_library_loop_before_collection", "time_dependent_tensor_converted_under_distribution"]
     required_faults = ["stalled_rank", "start_skew", "refused_library_call_inside_distributed_loop"]
     components = {
         "real": ["quantarhei.core.parallel: DistributedConfiguration, start/close_parallel_region, block_distributed_range/list/array, "
@@ -85,7 +86,7 @@ class World:
                 n = rng.choice([0, 1, 2, 3, 5, 8, 13, 21, N, N + 1, max(0, N - 1), 2 * N])
                 collect = rng.random() < 0.4 and n >= N
                 phases.append({"op": "list", "n": n, "ri": collect or rng.random() < 0.5, "nest": nest, "red": red,
-                               "collect": collect, "same_object": rng.random() < 0.5, "layout": layout,
+                               "collect": collect, "same_object": rng.random() < 0.5, "layout": layout, "inner_rates": rng.random() < 0.4,
                                "interleave": rng.random() < 0.4, "inner_refusal": N <= 4 and rng.random() < 0.12})
             elif r < 0.82:
                 n = rng.choice([0, 1, 2, 3, 5, 8, 13, 21, N, N + 1, max(0, N - 1), 2 * N])
@@ -98,7 +99,7 @@ class World:
                 phases.append({"op": "tensor", "as_ops": rng.random() < 0.5, "nest": 0})
         if N <= 4 and rng.random() < 0.06:
             if rng.random() < 0.5:
-                phases = phases[:2] + [{"op": "tensor", "as_ops": rng.random() < 0.5, "nest": 0}]
+                phases = phases[:2] + [{"op": "tensor", "as_ops": rng.random() < 0.5, "nest": 0, "td": rng.random() < 0.4}]
             else:
                 # operator form created in one nesting of parallel regions, converted to a tensor in another
                 phases = phases[:2] + [{"op": "tensor_split", "nest": 0, "nest_create": rng.choice([0, 1]), "nest_convert": rng.choice([0, 1])}]
@@ -206,6 +207,11 @@ class World:
                             acc += f_elem(a, e)
                             local["t%d" % a] = numpy.array([2.0 * e, 3.0 * e + a], dtype=numpy.complex128)
                         rec["block"] = blk
+                        if ph.get("inner_rates"):
+                            # a library routine with its own (nested, not sharing) distributed loop runs between the
+                            # caller's loop and the collection of its results
+                            world._rates({"Na": 2, "Nk": 3}, None)
+                            ctx.probe("nested_library_loop_before_collection") if ph.get("collect") else None
                         if ph.get("collect"):
                             collected = {}
                             tags = ["t%d" % j for j in range(ph["n"])]
@@ -429,6 +435,8 @@ class World:
                     active = (N > 1) and (top + ph["nest_create"] + 1 == 1 or top + ph["nest_convert"] + 1 == 1)
                 if active:
                     ctx.probe("library_%s_distributed" % ("tensor" if kind == "tensor_split" else kind))
+                    if ph.get("td"):
+                        ctx.probe("time_dependent_tensor_converted_under_distribution")
                 for r in range(N):
                     res = recs[r]["result"]
                     check(res is not None and close(res, ref, rtol=1e-12), "library-loop-equals-serial",
@@ -467,6 +475,12 @@ class World:
         from quantarhei.qm import RedfieldRelaxationTensor
         ham = agg.get_Hamiltonian()
         sbi = agg.get_SystemBathInteraction()
+        if ph.get("td"):
+            # the time-dependent subclass: operator form first, tensor form on request
+            from quantarhei.qm import TDRedfieldRelaxationTensor
+            RT = TDRedfieldRelaxationTensor(ham, sbi, as_operators=True)
+            RT.convert_2_tensor()
+            return numpy.asarray(RT.data)[::50].copy()
         RT = RedfieldRelaxationTensor(ham, sbi, as_operators=ph["as_ops"])
         if ph["as_ops"]:
             return numpy.concatenate([numpy.asarray(RT.Km, dtype=complex).ravel(),
